@@ -426,6 +426,23 @@ theorem inv_incUpdate {stale : Nat → IType → Prop} {s s' : BeState} (u : Nat
         exact inv_modify _ hinv hw hb hrun
     · exact absurd hp (by simp)
 
+theorem le_foldl_max (ents : List SEnt) : ∀ (m : Nat), (m ≤ ents.foldl (fun m e => max m e.id) m) ∧
+    ∀ e ∈ ents, e.id ≤ ents.foldl (fun m e => max m e.id) m := by
+  induction ents with
+  | nil => intro m; simp
+  | cons x xs ih =>
+    intro m
+    obtain ⟨h1, h2⟩ := ih (max m x.id)
+    simp only [List.foldl_cons, List.mem_cons]
+    refine ⟨by omega, ?_⟩
+    rintro e (rfl | he)
+    · omega
+    · exact h2 e he
+
+/-- restarting the server on the same database (ids of reaped entries become free again) -/
+theorem inv_reopen {stale : Nat → IType → Prop} {s : BeState} (hinv : Inv stale s) : Inv stale (reopen s) :=
+  ⟨(le_foldl_max s.ents 0).2, hinv.idsNodup, hinv.tables⟩
+
 /-! ### all histories -/
 
 /-- which tables are stale after an operation -/
@@ -521,6 +538,7 @@ theorem inv_step {stale : Nat → IType → Prop} {s : BeState} (op : Op) (hinv 
     cases h : incUpdate u av s with
     | none => exact ⟨hinv, hw⟩
     | some s' => exact inv_incUpdate u av hinv hw hok h
+  | reopen => exact ⟨inv_reopen hinv, hw⟩
 
 /-- THE PROPERTY: after any history of committed operations whose entries respect the uniqueness the upper
 layers guarantee, under any sequence of index layouts, every non-stale index table and every name table
